@@ -30,11 +30,11 @@ import (
 const c09Rule = "(1) every single and every pairwise structural edit (delete / duplicate / empty each element and attribute) of valid, fully populated AuthnRequest (signed and unsigned, POST and Redirect), LogoutRequest and SOAP AttributeQuery messages; (2) every SigAlg URI x registered key type x signature blob shape; (3) rapid byte-level mutations and parameter soups on all routed endpoints and methods; (4) single and pairwise structural edits and certificate variants of SP metadata through NewServiceProvider, each registered SP then used on every endpoint. Oracle: no panic. Non-trivial: the submitted payload still decodes (well-formed XML with the expected document element reaches the handler's field accesses) or, for metadata, registration succeeded. Distinct by (family, edit set) / (endpoint, mutation kind)."
 
 type C09Case struct {
-	Kind string       `json:"kind"` // http | spmeta
-	Spec world.Spec   `json:"spec"`
-	Req  obs.HTTPReq  `json:"req,omitempty"`
-	Meta string       `json:"sp_metadata,omitempty"`
-	Note string       `json:"note,omitempty"`
+	Kind string        `json:"kind"` // http | spmeta
+	Spec world.Spec    `json:"spec"`
+	Req  obs.HTTPReq   `json:"req,omitempty"`
+	Meta string        `json:"sp_metadata,omitempty"`
+	Note string        `json:"note,omitempty"`
 	Uses []obs.HTTPReq `json:"uses,omitempty"`
 }
 
